@@ -95,4 +95,29 @@ theorem recovery_of_tiled_image_succeeds {img : Image} {v total dev : Nat} {o : 
   simp only [GoodOutcome, List.nil_append] at hgo
   exact ⟨st', hst', hgo.2, hgo.1⟩
 
+/-- **An acknowledged record survives any later crash** (the C02 reading of `replay_on_bytes`): a
+record of the old tiling that lies outside the journalled region is accepted by the recovery scan of
+every image that differs from the old one only inside that region — whatever the in-flight writes of
+the interrupted transaction left there. -/
+theorem acknowledged_record_survives_crash {img0 img : Image} {v lo total : Nat} {info : Gen → RecMeta} {d0 : Disk} {L : List Rec}
+    (hrep : Rep img0 v lo total info d0) (ht : TiledBy d0 total L lo) (htot0 : total ≤ img0.size) (htot : total ≤ img.size)
+    (h64 : total < 2 ^ 64) (s e : Nat) (hse : s < e) (hlo : lo ≤ s) (he : e ≤ total) (hal : Aligned L s e)
+    (hagree : ∀ p, ¬ (s ≤ p ∧ p < e) → blockAt img p = blockAt img0 p)
+    (r : Rec) (hr : r ∈ L) (hout : r.1 + r.2.2 ≤ s ∨ e ≤ r.1)
+    (o : Opts) (journal : List (Nat × Nat)) (st : ScanSt) (hro : o.readOnly = false) :
+    match scan (applyIo img (retireUnjournaled [(s, e - s)])) v total o journal lo st with
+    | .ok st' => ((info r.2.1).key, (info r.2.1).ts) ∈ st'.clock
+    | .error err => NotFormatErr err := by
+  obtain ⟨_, _, hscan⟩ := replay_io_on_bytes hrep ht htot0 htot h64 s e hse hlo he hal hagree
+  have hgo := hscan o journal st hro
+  generalize scan (applyIo img (retireUnjournaled [(s, e - s)])) v total o journal lo st = out at hgo ⊢
+  cases out with
+  | error err => exact hgo
+  | ok st' =>
+    simp only [GoodOutcome] at hgo ⊢
+    rw [hgo.1]
+    apply List.mem_append_right
+    apply List.mem_map.mpr
+    exact ⟨r, List.mem_filter.mpr ⟨hr, by simp only [outside, decide_eq_true_eq]; exact hout⟩, rfl⟩
+
 end Feox.C03
